@@ -889,7 +889,7 @@ func genC20(r *simrt.Rand, tier string) *simrt.Plan {
 
 func genC21(r *simrt.Rand, tier string) *simrt.Plan {
 	nodes := 1 + r.Intn(4)
-	replicas := 1 + r.Intn(3)
+	replicas := 1 + r.Intn(4)
 	g, ops := rzBase(r, nodes, replicas)
 	steps := 1 + r.Intn(3)
 	for j := 0; j < steps; j++ {
